@@ -28,6 +28,14 @@ func waitFor(d time.Duration, cond func() bool) bool {
 	deadline := time.Now().Add(d)
 	for !cond() {
 		if time.Now().After(deadline) {
+			if dir := os.Getenv("C07_STUCKDUMP"); dir != "" && d >= baseStepTimeout {
+				_, file, line, _ := runtime.Caller(1)
+				_, file2, line2, _ := runtime.Caller(2)
+				buf := make([]byte, 8<<20)
+				n := runtime.Stack(buf, true)
+				os.WriteFile(fmt.Sprintf("%s/wait-%d.txt", dir, time.Now().UnixNano()),
+					append([]byte(fmt.Sprintf("wait of %v expired at %s:%d <- %s:%d\n\n", d, file, line, file2, line2)), buf[:n]...), 0o644)
+			}
 			return false
 		}
 		time.Sleep(20 * time.Microsecond)
@@ -232,8 +240,10 @@ func (lr *leaderRun) close() {
 		lr.lc.Close()
 	}
 	lr.n.g.openAll()
-	// the calls the harness made itself have returned before the controller is forgotten
-	waitFor(stepTimeout, func() bool { return lr.sessionCalls.Load() == 0 })
+	// The CreateSession calls the harness made have returned - or stay blocked for good: a write whose sync
+	// completion was still queued in the WAL's sync channel when the WAL was closed never gets its callback (the
+	// sync goroutine just ends), so its writeBlock never returns. Such a call can no longer register a session.
+	waitFor(stepTimeout, func() bool { return lr.sessionCalls.Load() == 0 || createSessionSettled() })
 	lr.n.closeFactories()
 }
 
@@ -348,6 +358,13 @@ func controllerFailed(o *hx.Out, p params, where string, err error) {
 // the schedule is one the model admits, so this is a broken correspondence.
 func reportStuck(o *hx.Out, p params, what string) {
 	o.Count("schedule-stuck")
+	if d := os.Getenv("C07_STUCKDUMP"); d != "" {
+		// diagnosis: who waits for what at the moment the bound expires
+		buf := make([]byte, 8<<20)
+		n := runtime.Stack(buf, true)
+		os.WriteFile(fmt.Sprintf("%s/stuck-%d.txt", d, time.Now().UnixNano()),
+			append([]byte(p.leg+" "+p.String()+": "+what+" (bound "+stepTimeout.String()+")\n\n"), buf[:n]...), 0o644)
+	}
 	pendingStuck = p.leg + " " + p.String() + ": " + what
 }
 
